@@ -284,8 +284,56 @@ Outcome run_rwmany_case(const Case &c) {
   vl::stats().klass("kind_rwmany_h" + std::to_string(H >= 2047 ? 2047 : H >= 127 ? 127 : 1) + "plus");
   return o;
 }
+// long hold: one thread keeps the lock for seconds while another sits in the blocking lock call the whole time (hundreds of millions of
+// failed acquisition attempts for a spinlock): the waiter's call may return only after the release.  One-sided: a slow machine makes the
+// waiter try fewer times, never makes a correct lock fail.
+struct LongHold { PMutex *m = nullptr; PSpinLock *s = nullptr; char lock = 's'; std::atomic<int> held{0}; std::atomic<int> violated{0}; long hold_ms = 3000; pthread_t waiter; std::atomic<int> waiter_started{0}; };
+LongHold *LH = nullptr;
+void *longhold_holder(void *) {
+  LongHold &g = *LH;
+  if (g.lock == 'm') p_mutex_lock(g.m); else p_spinlock_lock(g.s);
+  g.held.store(1);
+  // hold until the WAITER has burnt hold_ms of CPU time inside its lock call (a spinning waiter: that many attempts whatever the machine
+  // load) or, for a sleeping waiter (mutex), until hold_ms of wall time have passed; never longer than 20x that in wall time
+  while (!g.waiter_started.load()) sched_yield();
+  clockid_t wc; bool have = pthread_getcpuclockid(g.waiter, &wc) == 0;
+  struct timespec w0, c0; clock_gettime(CLOCK_MONOTONIC, &w0); if (have) clock_gettime(wc, &c0);
+  for (;;) {
+    struct timespec ts = {0, 20000000L}; nanosleep(&ts, NULL);
+    struct timespec w1, c1; clock_gettime(CLOCK_MONOTONIC, &w1);
+    double wall = (w1.tv_sec - w0.tv_sec) * 1e3 + (w1.tv_nsec - w0.tv_nsec) / 1e6, cpu = 0;
+    if (have) { clock_gettime(wc, &c1); cpu = (c1.tv_sec - c0.tv_sec) * 1e3 + (c1.tv_nsec - c0.tv_nsec) / 1e6; }
+    if (g.lock == 'm' ? wall >= std::min(1000L, g.hold_ms) : cpu >= g.hold_ms) break;
+    if (wall >= 20.0 * g.hold_ms) break;
+  }
+  g.held.store(2);                                   // about to release
+  if (g.lock == 'm') p_mutex_unlock(g.m); else p_spinlock_unlock(g.s);
+  return NULL;
+}
+void *longhold_waiter(void *) {
+  LongHold &g = *LH;
+  while (g.held.load() == 0) sched_yield();
+  g.waiter_started.store(1);
+  if (g.lock == 'm') p_mutex_lock(g.m); else p_spinlock_lock(g.s);
+  if (g.held.load() == 1) g.violated.store(1);       // the holder has not even started to release
+  if (g.lock == 'm') p_mutex_unlock(g.m); else p_spinlock_unlock(g.s);
+  return NULL;
+}
+Outcome run_longhold_case(const Case &c) {
+  Outcome o; LongHold g; LH = &g;
+  g.lock = c.lock; g.hold_ms = std::max(500, std::min(c.N, 20000));
+  g.m = p_mutex_new(); g.s = p_spinlock_new();
+  pthread_t a; pthread_create(&g.waiter, NULL, longhold_waiter, NULL); pthread_create(&a, NULL, longhold_holder, NULL);
+  pthread_join(a, NULL); pthread_join(g.waiter, NULL);
+  if (g.violated.load()) { o.klass = "long-hold"; o.verdict = string(c.lock == 'm' ? "p_mutex_lock" : "p_spinlock_lock") + " returned in the waiting thread while the holder was still inside its critical section (held until the waiter had spent " + std::to_string(g.hold_ms) + " ms of CPU time in the call)"; }
+  p_mutex_free(g.m); p_spinlock_free(g.s);
+  o.nontrivial = true; o.fp = vl::fnv1a(to_text(c)); vl::stats().klass(string("kind_longhold_") + c.lock);
+  LH = nullptr;
+  return o;
+}
 Outcome run_case(const Case &c) {
   if (c.kind == "thr") return run_threads_case(c);
+  if (c.kind == "longhold") return run_longhold_case(c);
   if (c.kind == "rwmany") return run_rwmany_case(c);
   Outcome o;
   Shared g; G = &g;
@@ -367,6 +415,7 @@ rc::Gen<Case> genCase(bool tsan, bool thorough) {
                     if (c.kind == "bbuf") { c.N = std::min(c.N, tsan ? 120 : 3000); if (c.T % 2) c.T++; c.T = std::min(c.T, tsan ? 6 : 12); }
                     if (c.kind == "thr") { c.T = std::min(c.T, 8); c.N = std::min(c.N, 2000); }
                     if (c.kind == "trylockrec") c.N = std::min(c.N, 3000);
+                    if (c.kind == "longhold") { c.T = 2; c.N = (int)vl::envl("VERIF_HOLD_MS", 3500); c.lock = (c.noise % 4) ? 's' : 'm'; }
                     // a spinlock with more spinning threads than free cores degenerates into whole time slices burnt per hand-over
                     if ((c.kind == "lockrec" || c.kind == "trylockrec") && c.lock == 's') c.T = std::min(c.T, tsan ? 4 : 8);
                     return c; });
